@@ -19,6 +19,10 @@ mod private {
     /// The sealed trait.
     pub trait Sealed {}
 }
+#[cfg(fast_tlsh_verif)]
+#[allow(missing_docs)]
+#[allow(clippy::missing_docs_in_private_items)]
+pub(crate) mod verif_hooks;
 
 /// The number of valid encoded length values.
 ///
